@@ -450,6 +450,11 @@ func (ex *Exec) applyContract(st *State, fr *Frame, x *ssa.Call, c *Contract, ke
 	if x != nil {
 		ex.bindResult(fr, x, rets)
 	}
+	// remember the call (for called/callarg/callres in the postconditions of the function under verification)
+	if st.Calls == nil {
+		st.Calls = map[string]*callRecord{}
+	}
+	st.Calls[site] = &callRecord{Args: args, Rets: rets}
 	return false
 }
 
@@ -529,6 +534,12 @@ func (st *State) snapshot() *State {
 	n.Maps = make(map[*Cell]*MapState, len(st.Maps))
 	for k, v := range st.Maps {
 		n.Maps[k] = v
+	}
+	if st.Calls != nil {
+		n.Calls = make(map[string]*callRecord, len(st.Calls))
+		for k, v := range st.Calls {
+			n.Calls[k] = v
+		}
 	}
 	return n
 }
